@@ -32,7 +32,7 @@ RULE = (
     'not representable in float32. Later rounds: non-ASCII strings; a selection made before the export on the '
     'same exporter object. Rounds 7-8: query and tags together; two tag selectors; parse() with the other units '
     'option first; the preselection exported as well; top-level parameters named like group members (selection '
-    'and #define lists); the 132-column rule counts bytes. Distinct = distinct case JSON.'
+    'and #define lists); the 132-column rule counts bytes. Round 10: one exporter object asked twice in a row on the compiled back-ends and Bash, the second answer is read back. Distinct = distinct case JSON.'
 )
 ASSUMPTIONS = [
     "Bash encodes true/false as 0/-1 and Rust maps float128 to f64, both as documented",
